@@ -4,6 +4,7 @@ import (
 	"time"
 
 	"github.com/biscuit-auth/biscuit-go/v2/datalog"
+	"github.com/biscuit-auth/biscuit-go/v2/pb"
 )
 
 // Relational authorization harnesses: C02 (attenuation monotone), C03 (block scoping),
@@ -265,4 +266,74 @@ func VerifC13Reset() {
 	if !reused.qerr && !fresh.qerr {
 		vAssert(gSetEq(reused.facts, fresh.facts), "C13.same-query-result")
 	}
+}
+
+// VerifC02Dangling: the parent token is written by hand (as any holder can for the blocks they append, and
+// as a careless issuer can for the authority block): one of its constants is a symbol index that no table
+// resolves yet. A block appended later brings new symbols; if those gave the old index a meaning, appending
+// would turn a refusal into an acceptance. Either the library refuses such a parent, or appending changes nothing.
+func VerifC02Dangling() {
+	vForbidPanic("C02")
+	vTimerMode(0)
+	v := uint32(3)
+	right := uint64(1024)
+	d := vUint64("dangling")
+	vAssume(vAnd(d >= 1025, d <= 1027)) // first indexes past the parent's table
+	where := vChoose("dangling-in", 2)
+	authBlk := &pb.Block{Symbols: []string{"perm"}, Version: &v}
+	fact := &pb.FactV2{Predicate: &pb.PredicateV2{Name: &right, Terms: []*pb.TermV2{{Content: &pb.TermV2_String_{String_: d}}}}}
+	blocks := []*pb.Block{authBlk}
+	if where == 0 {
+		vLabel("dangling index in the authority block")
+		authBlk.FactsV2 = []*pb.FactV2{fact}
+	} else {
+		vLabel("dangling index in a holder's block")
+		one := &pb.FactV2{Predicate: &pb.PredicateV2{Name: &right, Terms: []*pb.TermV2{{Content: &pb.TermV2_Integer{Integer: 1}}}}}
+		authBlk.FactsV2 = []*pb.FactV2{one}
+		// check if right(#d): unsatisfiable as long as #d has no meaning
+		q := &pb.RuleV2{Head: &pb.PredicateV2{Name: &right}, Body: []*pb.PredicateV2{{Name: &right, Terms: []*pb.TermV2{{Content: &pb.TermV2_String_{String_: d}}}}}}
+		blocks = append(blocks, &pb.Block{Version: &v, ChecksV2: []*pb.CheckV2{{Queries: []*pb.RuleV2{q}}}})
+	}
+	h, ok := hSign(blocks, false)
+	if !ok {
+		return
+	}
+	parent, err := Unmarshal(h.data)
+	vCover("decided")
+	if err != nil {
+		vCover("parent-refused-at-unmarshal")
+		return
+	}
+	// the appended block: one fact whose predicate name and string are new symbols
+	bb := parent.CreateBlock()
+	bb.AddFact(Fact{Predicate{Name: "root", IDs: []Term{String("extra")}}})
+	child, err := parent.Append(&chainRNG{}, bb.Build())
+	if err != nil {
+		return
+	}
+	if vChoose("child-reloaded", 2) == 1 {
+		child = c16Reload(child)
+	}
+	asked := [...]string{"root", "extra"}[vChoose("asked", 2)]
+	run := func(t *Biscuit) int {
+		a, err := t.AuthorizerFor(WithSingularRootPublicKey(h.rootPub), gPatient)
+		if err != nil {
+			return oFailed
+		}
+		if where == 0 {
+			// allow if right(asked): only the authority's own fact can satisfy it
+			a.AddPolicy(Policy{Kind: PolicyKindAllow, Queries: []Rule{{Head: Predicate{Name: "q"}, Body: []Predicate{{Name: "perm", IDs: []Term{String(asked)}}}}}})
+		} else {
+			// the request carries right(asked); the holder's block demands right(#d)
+			a.AddFact(Fact{Predicate{Name: "perm", IDs: []Term{String(asked)}}})
+			a.AddPolicy(DefaultAllowPolicy)
+		}
+		return gClass(a.Authorize())
+	}
+	withB := run(child)
+	without := run(parent)
+	vObserve("with", withB)
+	vObserve("without", without)
+	vCover("compared")
+	vAssert(vImplies(withB == oAllow, without == oAllow), "C02.monotone-dangling")
 }
